@@ -77,13 +77,23 @@ def _events(c, label, seq0):
 
 
 def _uniform_after(ev, k):
-    """First scalar uniform drawn after event index k and before the next posterior evaluation."""
+    """Scalar uniforms that can belong to the decision on the evaluation at event index k: the
+    first one drawn after it (before the next evaluation) and, because the property does not
+    fix *when* the uniform is requested, also those drawn since the previous evaluation.
+    Returns a list (first element: the one drawn after, if any)."""
+    out = []
     for e in ev[k + 1:]:
         if e[1] == "post":
-            return None
+            break
         if e[1] == "rng" and e[2] in ("random", "uniform") and np.ndim(e[4]) == 0:
-            return float(e[4])
-    return None
+            out.append(float(e[4]))
+            break
+    for e in reversed(ev[:k]):
+        if e[1] == "post":
+            break
+        if e[1] == "rng" and e[2] in ("random", "uniform") and np.ndim(e[4]) == 0:
+            out.append(float(e[4]))
+    return out
 
 
 def _judge(V, stats, kind, accepted, delta, u, what, extra=0.0):
@@ -97,17 +107,21 @@ def _judge(V, stats, kind, accepted, delta, u, what, extra=0.0):
         if not accepted:
             _viol(V, "A.decision", "%s: %s has log acceptance ratio %+.6g > 0 (probability 1) but was rejected" % (kind, what, la))
         return
-    if u is None:
+    us = [u] if isinstance(u, float) else list(u or [])
+    if not us:
         if accepted and la < -TIE:
             stats["warn_uninterpretable_no_uniform"] += 1
         return
     q = math.exp(la) if la > -745 else 0.0
-    if abs(u - q) < 1e-12 + 1e-9 * q:
-        stats["ties_skipped"] += 1
-        return
-    if accepted != (u < q):
-        _viol(V, "A.decision", "%s: %s was %s although the uniform drawn for the decision is %.9g and the Metropolis-Hastings "
-              "probability of the proposed move is %.9g (log ratio %+.6g)" % (kind, what, "accepted" if accepted else "rejected", u, q, la))
+    for cand in us:
+        if abs(cand - q) < 1e-12 + 1e-9 * q:
+            stats["ties_skipped"] += 1
+            return
+        if accepted == (cand < q):
+            return
+    _viol(V, "A.decision", "%s: %s was %s although the uniform(s) drawn around the decision are %s and the Metropolis-Hastings "
+          "probability of the proposed move is %.9g (log ratio %+.6g)"
+          % (kind, what, "accepted" if accepted else "rejected", ", ".join("%.9g" % c for c in us), q, la))
 
 
 def refine_coordinatewise(V, stats, h, ev, w, kind):
@@ -227,6 +241,38 @@ class LeapfrogRecorder:
         return out
 
 
+def momentum_law(V, stats, h):
+    """The momentum refresh must draw r ~ N(0, M) for the same M whose inverse defines the kinetic
+    energy in the accept rule (otherwise the refresh does not preserve exp(-H)).  The map z -> r is
+    obtained black-box by feeding unit vectors through mass.sample_momentum(ScriptedGenerator)."""
+    from simkit.rng import ScriptedGenerator
+
+    mass = getattr(h.chain, "mass", None)
+    if mass is None or not hasattr(mass, "sample_momentum"):
+        stats["warn_uninterpretable_momentum"] += 1
+        return
+    d = h.d
+    try:
+        r0 = np.asarray(mass.sample_momentum(ScriptedGenerator(normals=[0.0] * d)), dtype=float).reshape(-1)
+        A = np.zeros((d, d))
+        for i in range(d):
+            e = [0.0] * d
+            e[i] = 1.0
+            A[:, i] = np.asarray(mass.sample_momentum(ScriptedGenerator(normals=e)), dtype=float).reshape(-1) - r0
+    except Exception:  # noqa - a different way of drawing momenta: not interpretable, layer B still applies
+        stats["warn_uninterpretable_momentum"] += 1
+        return
+    im = h.cfg["knobs"].get("inverse_mass")
+    IM = np.eye(d) if im is None else (np.asarray(im, dtype=float) if np.ndim(im) == 2 else np.diag(np.broadcast_to(np.asarray(im, dtype=float), (d,))))
+    cov_r = A @ A.T
+    stats["momentum_law_checked"] += 1
+    err = float(np.max(np.abs(cov_r @ IM - np.eye(d))))
+    if np.max(np.abs(r0)) > 1e-12 or err > 1e-8:
+        _viol(V, "A.momentum", "hmc: momenta are drawn as r = A z with A A^T = %r, but the kinetic energy in the accept rule is "
+              "0.5 r^T W r with W = inverse_mass = %r; A A^T W should be the identity (max deviation %.3g)"
+              % (np.round(cov_r, 6).tolist(), IM.tolist(), err))
+
+
 def _kinetic(h, r):
     im = h.cfg["knobs"].get("inverse_mass")
     if im is None:
@@ -336,7 +382,7 @@ def refine_ensemble(V, stats, h, ev, X, LX, X_after):
                 break
             if e[1] == "rng" and e[2] in ("random", "uniform") and np.ndim(e[4]) == 0:
                 prev_uniforms.append(float(e[4]))
-        u = _uniform_after(ev, k)
+        u_all = _uniform_after(ev, k)
         cands = []
         for j in range(nw):
             if j == i:
@@ -396,11 +442,12 @@ def refine_ensemble(V, stats, h, ev, X, LX, X_after):
                 if not acc:
                     good = False
                     why = "log ratio %+.6g > 0 but rejected" % la
-            elif u is not None:
+            elif u_all:
                 q = math.exp(la) if la > -745 else 0.0
-                if abs(u - q) > 1e-12 + 1e-9 * q and acc != (u <= q):
+                if not any(abs(u - q) <= 1e-12 + 1e-9 * q or acc == (u <= q) for u in u_all):
                     good = False
-                    why = "%s with u=%.9g, z^(d-1) p(Y)/p(X) = %.9g (z=%.6g, d=%d)" % ("accepted" if acc else "rejected", u, q, z, d)
+                    why = "%s with uniform(s) %s, z^(d-1) p(Y)/p(X) = %.9g (z=%.6g, d=%d)" % (
+                        "accepted" if acc else "rejected", ", ".join("%.9g" % u for u in u_all), q, z, d)
             if good:
                 ok_any = True
                 break
@@ -425,6 +472,8 @@ def execute(sc):
         except LibRaised as e:
             return dict(violations=[dict(invariant="op.raised", detail=str(e), key={})], stats={}, digest=digest(sc),
                         nontrivial=False, shape=kind, sim_seconds=0.0)
+        if kind == "hmc":
+            momentum_law(V, stats, h)
         rec = None
         if kind == "hmc" and hasattr(h.chain, "run_leapfrog"):
             rec = LeapfrogRecorder(h.chain)
